@@ -196,11 +196,12 @@ void ramalhete_queue<T, Policies...>::push(value_type value) {
       auto next = t->next.load(std::memory_order_relaxed);
       if (next == nullptr) {
         node* new_node = new node(raw_val);
-        traits::release(value);
 
         marked_ptr expected = nullptr;
         // (4) - this release-CAS synchronizes-with the acquire-load (2, 6, 12)
         if (t->next.compare_exchange_strong(expected, new_node, std::memory_order_release, std::memory_order_relaxed)) {
+          // release ownership only now - if the CAS fails we retry and a later allocation might throw
+          traits::release(value);
           expected = t;
           // (5) - this release-CAS synchronizes-with the acquire-load (3)
           _tail.compare_exchange_strong(expected, new_node, std::memory_order_release, std::memory_order_relaxed);
